@@ -61,7 +61,7 @@ def keep_c12(c, quick):
         return c["w"] in C12_W32 and (not quick or c["n"] == 9)
     if c["fn"] == "page_delta":
         return True
-    if c["fn"] in ("make_definitions", "read_plain_t", "ba_roundtrip"):
+    if c["fn"] in ("make_definitions", "read_plain_t", "ba_roundtrip", "dict_roundtrip", "codec_threads"):
         return False
     if c["fn"] == "delta_unpack" and m.get("pattern") == "stale":
         return True
@@ -224,7 +224,7 @@ def generate(rng, quick, c12=False):
             raise RuntimeError("spec encoder failed on %r: %r" % (c["enc"], o))
         if c["fn"] == "read_hybrid" and c.get("cut"):
             o = bytes(o)[:len(o) - c.pop("cut")]
-        if c["fn"] == "delta_unpack" and c["meta"].get("stale"):
+        if c["fn"] in ("delta_unpack", "page_delta") and c["meta"].get("stale"):
             o = _delta_stale_widths(bytes(o), c["meta"]["stale"])
         c["inp"] = (bytes(o) + (TRAIL if c.get("trail") else b"")).hex()
         c["enc_len"] = len(o)
@@ -681,6 +681,13 @@ def judge(ctx, pid, c, r, mo, so, guard, sanitize, verbose=False, memory_only=Fa
     # the theorem's guard, evaluated on the case, must imply a safe model verdict
     if f["safe"](c):
         ctx.correspondence("guard of the %s theorem => impl model returns Ok" % fn, short(c), True, model_ok)
+    if r[0] == "changed" and memory_only:
+        return False          # (C12 judges memory safety only: a value that is a view of reused state is C11's finding)
+    if r[0] == "changed":
+        # the value the codec function returned was right after the call (or this line would not replace the first one) and
+        # showed something else after later calls: it was a view of state that outlives the call
+        return ctx.fail(dict(cls, kind="result-changed-after-later-calls", verdict=mtag or "ok"), short(c),
+                        "the result of %s changed while the library went on decoding/encoding other inputs: was %s, now %s" % (fn, r[1][:160], r[2][:160]))
     crashed = r[0] in ("crash", "asan", "ubsan", "missing")
     if crashed:
         failed |= ctx.fail(dict(cls, kind=r[0], verdict=mtag or "ok"), short(c), "real code: %r" % (r,))
@@ -735,7 +742,14 @@ def replay_case(case, sanitize, memory_only=False):
     try:
         c = dict(case)
         f = FNS[c["fn"]]
-        r = L.run_real([worker_case(c)], tmp, sanitize=sanitize, nproc=1)[0]
+        batch = [worker_case(c)]
+        if "inp" in c and c["fn"] not in ("page_v1_dict", "page_v2_dict"):
+            # followed by the same call on the complemented input: a result that is a view of state outliving the call shows
+            # as `changed` (the worker re-examines every returned value after later calls)
+            c2 = dict(worker_case(c))
+            c2["inp"] = bytes(b ^ 0xFF for b in bytes.fromhex(c2["inp"])).hex()
+            batch.append(c2)
+        r = L.run_real(batch, tmp, sanitize=sanitize, nproc=1)[0]
         mo = L.pq_batch([f["model"](c)])[0]
         so = second_phase([c], [r], L.pq_batch([f["spec"](c)]))[0]
         print("case      :", json.dumps(short(c))[:1500])
@@ -1449,9 +1463,10 @@ def gen_callers_dispatch(rng, quick):
     cases = []
     for w in range(0, 33):
         for selfmade in (False, True):
-            own = selfmade and w in (8, 16, 32)
-            if own:
-                shapes = [("wbp",)]
+            ownw = selfmade and w in (8, 16, 32)
+            if ownw:
+                # created_by is only a string: besides the writer's own layout ("wbp") a file naming fastparquet may hold any runs
+                shapes = [("wbp",), ("rle",), ("bp",)] + ([("rle", "bp", "rle"), ("bp8", "rle")] if w <= 24 else [])
             elif w == 0:
                 shapes = [("rle",), ("bp",)]          # (width 0: the readers must not enter the native decoder at all)
             elif w > 24:
@@ -1459,10 +1474,11 @@ def gen_callers_dispatch(rng, quick):
             else:
                 shapes = [("rle",), ("bp",), ("rle", "bp", "rle")]
             for shape in shapes:
+                own = ownw and shape == ("wbp",)
                 for optional in (False, True):
                     for n in ((9, 40) if quick else (1, 8, 9, 17, 40, 200)):
                         # largest index: a dictionary has at most 2^31 - 1 entries; fastparquet's own codes are signed
-                        m = (1 << (w - 1)) - 1 if own else min((1 << w) - 1, (1 << 31) - 1)
+                        m = (1 << (w - 1)) - 1 if ownw else min((1 << w) - 1, (1 << 31) - 1)
                         levels = [1] * n if not optional else [0 if (i % 4 == 1) else 1 for i in range(n)]
                         nval = sum(levels)
                         ext = [m, 0, (1 << max(min(w - 2, 29), 0)) if w else 0]
@@ -1471,6 +1487,9 @@ def gen_callers_dispatch(rng, quick):
                             runs = [["rle", 1, ext[0]], ["rle", 1, ext[1]], ["rle", max(nval - 2, 0), ext[2]]]
                         elif shape in (("bp",), ("wbp",)):
                             runs = [["bp", (ext + rnd(nval))[:nval]]]
+                        elif shape == ("bp8", "rle"):
+                            # a first bit-packed run that does NOT hold all the values, then RLE: not the one-run layout
+                            runs = [["bp", (ext + rnd(8))[:8]], ["rle", max(nval - 8, 0), ext[0]]]
                         else:
                             runs = [["rle", 2, ext[0]], ["bp", (ext[1:] + rnd(8))[:8]], ["rle", 1, ext[2]], ["bp", rnd(max(nval - 11, 0))]]
                         want, left, kept = [], nval, []
@@ -1488,7 +1507,9 @@ def gen_callers_dispatch(rng, quick):
                         enc = ["bp_enc", w, want] if own else ["hyb_enc", w, runs]
                         base = {"w": w, "n": n, "optional": optional, "stream": "main", "enc": enc, "trail": False,
                                 "selfmade": selfmade, "wform": own}
-                        meta = {"want": want, "levels": levels, "shape": "+".join(shape)}
+                        # core._is_one_bitpacked_run: the block is ONE bit-packed run holding at least the page's values
+                        one_run = len(runs) == 1 and runs[0][0] == "bp"
+                        meta = {"want": want, "levels": levels, "shape": "+".join(shape), "one_run": one_run}
                         if selfmade or w == 0:
                             cases.append(dict(base, fn="page_v1_dict", meta=dict(meta)))
                             cases.append(dict(base, fn="page_v2_dict", nval=nval, use_cat=False, meta=dict(meta)))
@@ -1739,9 +1760,11 @@ def gen_page_delta(rng, quick):
                 vals, widths = _delta_values(rng, bits, n, 32, lambda m: wsel[m % 40], "random", 4)
                 adts = ["int64" if longval else "int32"] + (["int64"] if (version == 2 and not longval) else [])
                 for adt in adts:
-                    cases.append({"fn": "page_delta", "longval": longval, "version": version, "n": n, "adt": adt, "vals": [str(v) for v in vals],
-                                  "enc": ["delta_enc", bits, 128, 4, vals], "trail": False, "stream": "main",
-                                  "meta": {"max_width": max(widths) if widths else 0}})
+                    # (as other writers leave them: stale width bytes for the unneeded miniblocks; n = 33: one value left at a stale miniblock)
+                    for stale in ([None, [5, 9, 3]] if n in (33, 34, 5) else [None]):
+                        cases.append({"fn": "page_delta", "longval": longval, "version": version, "n": n, "adt": adt, "vals": [str(v) for v in vals],
+                                      "enc": ["delta_enc", bits, 128, 4, vals], "trail": False, "stream": "main",
+                                      "meta": {"max_width": max(widths) if widths else 0, "stale": stale}})
     return cases
 
 
@@ -1762,3 +1785,81 @@ FNS["page_delta"] = dict(model=lambda c: ("uleb_enc", 0), tagged=False, views=_i
                          spec=lambda c: ("delta_dec", 64 if c["longval"] else 32, _inp(c)), oracle=_pd_oracle, safe=lambda c: True,
                          cls=lambda c: {"longval": c["longval"], "version": c["version"], "adt": c["adt"]}, trivial=lambda c: False)
 EXTRA_GENERATORS.append(gen_page_delta)
+
+
+# =============================================================================================
+# encoder -> decoder round trip of the dictionary-index block: writer.encode_dict -> core.read_data_page / read_data_page_v2
+# =============================================================================================
+
+def gen_dict_roundtrip(rng, quick):
+    """'every encoder's output decodes back to its input' for the whole-byte index run: the codes pandas holds for a categorical of
+    ncat categories (int8 / int16 / int32 by ncat), ncat around the representation boundaries of the code and of the index width,
+    pages that USE the highest codes; read back the way fastparquet reads its own pages (v1, v2 categorical, v2 de-reference) and
+    as a foreign file."""
+    cases = []
+    ncats = [1, 2, 127, 128, 129, 200, 255, 256, 257, 32767, 32768, 32769, 40000, 65535, 65536, 65537] + ([] if quick else [3, 100, 1000, 70000, 100000])
+    for ncat in ncats:
+        for n in ((9, 40) if quick else (1, 8, 9, 40, 200)):
+            for optional in (False, True):
+                levels = [1] * n if not optional else [0 if (i % 4 == 1) else 1 for i in range(n)]
+                nval = sum(levels)
+                top = ncat - 1
+                ext = [top, 0, top // 2, min(top // 2 + 1, top)] + [v for v in (127, 128, 255, 256, 32767, 32768, 65535, 65536) if v <= top]
+                codes = (ext + [rng.randrange(ncat) for _ in range(nval)])[:nval]
+                rng.shuffle(codes)
+                cases.append({"fn": "dict_roundtrip", "ncat": ncat, "n": n, "optional": optional, "levels": levels, "codes": codes,
+                              "stream": "main", "meta": {}})
+    return cases
+
+
+def _dr_oracle(c, r, so, guard):
+    if r[0] != "ok":
+        return [(r[0], "encode_dict -> page readers: %r" % (r[:3],))]
+    res = r[1]
+    probs = []
+    it_codes = c["codes"]
+    for key, got in sorted(res.items()):
+        if key in ("enc", "codes_dtype"):
+            continue
+        if key.startswith("v1"):
+            want = list(it_codes)
+        else:
+            it = iter(it_codes)
+            null = -1 if key.endswith("cat") else None
+            want = [next(it) if lv else null for lv in c["levels"]]
+        if got != want:
+            bad = got if (got and got[0] == "exc") else [(i, a, b) for i, (a, b) in enumerate(zip(got, want)) if a != b][:4]
+            probs.append(("values", "the index block writer.encode_dict wrote for %d codes of dtype %s (%d categories; width byte %d) does not "
+                          "decode back to its input through %s [page version / selfmade / mode]: (position, got, wrote) %r"
+                          % (len(it_codes), res.get("codes_dtype"), c["ncat"], bytes.fromhex(res["enc"])[0] if res.get("enc") else -1, key, bad)))
+            break
+    return probs
+
+
+FNS["dict_roundtrip"] = dict(model=lambda c: ("uleb_enc", 0), tagged=False, views=_info_views("none"), spec=lambda c: ("uleb_enc", 0),
+                             oracle=_dr_oracle, safe=lambda c: True,
+                             cls=lambda c: {"ncat_class": "int8" if c["ncat"] <= 128 else "int16" if c["ncat"] <= 32768 else "int32", "optional": c["optional"]},
+                             trivial=lambda c: not c["codes"])
+EXTRA_GENERATORS.append(gen_dict_roundtrip)
+
+
+# =============================================================================================
+# results of distinct inputs alive at once: threads (the sequential form is generic: harness/codec_worker.py `hold`)
+# =============================================================================================
+
+def gen_codec_threads(rng, quick):
+    return [{"fn": "codec_threads", "n": n, "rounds": 60 if quick else 300, "stream": "main", "meta": {}} for n in ((40, 9000) if quick else (40, 1000, 9000, 20000))]
+
+
+def _ct_oracle(c, r, so, guard):
+    if r[0] != "ok":
+        return [(r[0], "codec functions in four threads: %r" % (r[:3],))]
+    if r[2]:
+        return [("values", "four threads calling codec functions on their own inputs: %d results were not the value of the caller's input any more "
+                 "when looked at after the call; e.g. %r" % (r[2], r[1][:3]))]
+    return []
+
+
+FNS["codec_threads"] = dict(model=lambda c: ("uleb_enc", 0), tagged=False, views=_info_views("none"), spec=lambda c: ("uleb_enc", 0),
+                            oracle=_ct_oracle, safe=lambda c: True, cls=lambda c: {}, trivial=lambda c: False)
+EXTRA_GENERATORS.append(gen_codec_threads)
